@@ -199,7 +199,9 @@ func c02Run(c *core.Ctx) {
 		untiedMax, k2Max, k3Max = 24, 25, 20
 		rim = []int{1, 2, 25, 26, 49, 50}
 	} else {
-		rim = []int{1, 30}
+		// 38..50: where exact counts exceed 2^64 (an implementation that
+		// counts in machine integers overflows only from here on)
+		rim = []int{1, 30, 38, 45, 50}
 	}
 	for n1 := 1; n1 <= untiedMax; n1++ {
 		for n2 := 1; n2 <= untiedMax; n2++ {
